@@ -87,9 +87,9 @@ class Sched:
             self.pending[p] = (op, os.fspath(path))
             self.turn = None
             self.cv.notify_all()
-            while self.turn != p:
+            while self.turn != p and self.turn != "__all__":
                 self.cv.wait()
-            if p in self.crashed:
+            if p in self.crashed or self.turn == "__all__":
                 raise Crash()
 
     def touch(self, path):
